@@ -437,12 +437,93 @@ func runC02(r *Run) {
 				}
 			}
 		}
-		// cases
+		// cases: where the id is tested more than once (a pre-check switch ahead of the evaluating one) the later test is the case
 		cases := map[int64]branch{}
 		for _, br := range branchesInOne(ck) {
 			if br.Info.Op == token.EQL && br.Info.Const != nil && idLoad(br.Info.Root) {
 				if n, ok := constInt(br.Info.Const); ok {
-					cases[n] = br
+					if old, dup := cases[n]; !dup || br.If.Block().Index > old.If.Block().Index {
+						cases[n] = br
+					}
+				}
+			}
+		}
+		// the same arity table as guards inside CheckConstraint itself, ahead of the cases (`switch c.ID { case …: if len(c.Data) == 0 { return false } }`):
+		// a guard counts for an id when, with the id's own comparisons decided, the case is out of reach once the guard's passing edge is removed
+		type dataGuard struct {
+			pass edge
+			min  int64
+		}
+		var dguards []dataGuard
+		for _, b2 := range branchesInOne(ck) {
+			if !lenOfField(b2.Info.Root, "Constraint.Data") {
+				continue
+			}
+			k, ok := constInt(b2.Info.Const)
+			if !ok {
+				continue
+			}
+			for sl := 0; sl < 2; sl++ {
+				tb := b2.If.Block().Succs[sl]
+				if len(tb.Instrs) == 0 {
+					continue
+				}
+				if isRet, isC, v := retConstBool(tb.Instrs[len(tb.Instrs)-1]); isRet && isC && !v {
+					op := b2.Info.Op
+					if b2.slotWhenRel(true) != sl {
+						op = negOp(op)
+					}
+					min := int64(0)
+					switch op {
+					case token.EQL:
+						if k == 0 {
+							min = 1
+						}
+					case token.LSS:
+						min = k
+					case token.LEQ:
+						min = k + 1
+					}
+					if min > 0 {
+						dguards = append(dguards, dataGuard{edge{b2.If.Block(), 1 - sl}, min})
+					}
+				}
+			}
+		}
+		for id := range ids {
+			cbr, ok := cases[id]
+			if !ok || len(dguards) == 0 {
+				continue
+			}
+			idCuts := map[edge]bool{}
+			for _, gb := range branchesInOne(ck) {
+				if gb.Info.Op != token.EQL || gb.Info.Const == nil || !idLoad(gb.Info.Root) {
+					continue
+				}
+				k, ok := constInt(gb.Info.Const)
+				if !ok {
+					continue
+				}
+				if k == id {
+					idCuts[edge{gb.If.Block(), gb.slotWhenRel(false)}] = true
+				} else {
+					idCuts[edge{gb.If.Block(), gb.slotWhenRel(true)}] = true
+				}
+			}
+			target := cbr.If.Block()
+			if !blocksReachable(ck.Blocks[0], idCuts, nil)[target] {
+				continue
+			}
+			for _, g := range dguards {
+				if g.pass.From == target || dom(target, g.pass.From) {
+					continue // a test inside the case itself is the case's own business (armFacts)
+				}
+				cuts := map[edge]bool{g.pass: true}
+				for e := range idCuts {
+					cuts[e] = true
+				}
+				if !blocksReachable(ck.Blocks[0], cuts, nil)[target] && g.min > guarantee[id] {
+					guarantee[id] = g.min
 				}
 			}
 		}
@@ -711,8 +792,14 @@ func runC02(r *Run) {
 						}
 					}
 				}
+				nGreedy := len(cut)
 				for _, e := range idx[0].notFound {
 					cut[e] = true
+				}
+				// strings.Cut needs no `found` test: without a slash `before` is the whole rest, its length the right answer
+				needCuts := 2
+				if strings.HasSuffix(idx[0].call.Name, ".Cut") && len(idx[0].notFound) == 0 && nGreedy >= 1 {
+					needCuts = 1
 				}
 				bad := ""
 				seen := 0
@@ -724,7 +811,7 @@ func runC02(r *Run) {
 						}
 					}
 				}
-				r.check(bad == "" && seen > 0 && len(cut) >= 2, "findParamLenForLastSegment:non-greedy-stops-at-slash", r.fpos(ls),
+				r.check(bad == "" && seen > 0 && len(cut) >= needCuts, "findParamLenForLastSegment:non-greedy-stops-at-slash", r.fpos(ls),
 					"non-greedy with a '/' present returns exactly the position of the first '/'",
 					"non-greedy last parameter may return something other than the position of the first '/' ("+bad+")")
 			}
